@@ -192,6 +192,46 @@ def flat_line_test (inp : List V) (tinp : List Int) (suspect_threshold : Rat) (f
   flag_arr := setWhere flag_arr (maskOf inp) .missing
   return flag_arr
 
+
+def climatology_check (periodOf : Period → Int → Int) (members : List Member) (tinp : List Int) (inp : MArr) (zinp : MArr) : Res := do
+  let mut flag_arr := emptyFlags inp.length
+  flag_arr := fillFlags flag_arr .unknown
+  flag_arr := setWhere flag_arr (maskOf inp) .missing
+  for m in members do
+    let mut tinp_copy : List Rat := []
+    if let some period := m.period then
+      if period = Period.week then
+        tinp_copy := isoWeekOf periodOf tinp
+      else
+        tinp_copy := attrOf periodOf period tinp
+    else
+      tinp_copy := asInstants tinp
+    if m.zspan.isSome && noneUnmasked zinp then
+      continue
+    let mut t_idx := band (geR tinp_copy m.tspan.1) (leR tinp_copy m.tspan.2)
+    let mut z_idx : BArr := []
+    if let some zspan := m.zspan then
+      z_idx := andB (andB (plainB (notP (maskOf zinp))) (geS zinp zspan.1)) (leS zinp zspan.2)
+    else
+      z_idx := zipMask (notP (isnanData inp)) (maskOf inp)
+    let mut values_idx := andB (plainB t_idx) z_idx
+    let mut fail_idx : BArr := []
+    if let some fspan := m.fspan then
+      fail_idx := bor (ltS inp fspan.1) (gtS inp fspan.2)
+    else
+      fail_idx := plainB (List.replicate inp.length false)
+    let mut suspect_idx := bor (ltS inp m.vspan.1) (gtS inp m.vspan.2)
+    flag_arr := setWhereB flag_arr (andB values_idx fail_idx) .fail
+    flag_arr := setWhereB flag_arr (andB (andB values_idx (notB fail_idx)) suspect_idx) .suspect
+    flag_arr := setWhereB flag_arr (andB (andB values_idx (notB fail_idx)) (notB suspect_idx)) .good
+  flag_arr := setWhere flag_arr (maskOf inp) .missing
+  return flag_arr
+
+def climatology_test (periodOf : Period → Int → Int) (config : List Member) (inp : List V) (tinp : List Int) (zinp : List V) : Res := do
+  let inp := ofInput inp
+  let zinp := ofInput zinp
+  let mut flag_arr ← climatology_check periodOf config tinp inp zinp
+  return flag_arr
 -- END GENERATED
 
 end IoosQc.NpSrc
